@@ -24,7 +24,8 @@ from . import REPO, VERIF
 
 REPO_PREFIX = os.path.join(REPO, "python", "lsst", "daf", "relation")
 PREFIXES = ["leaf", "materialization", "m", "leaf_", "x", "p" * 40, "q" * 58, "r" * 60, "s" * 64, "long_prefix_" * 7,
-            "stage1__", "__scratch__", "a_", "", "UPPER", "with space", "dash-", "0"]
+            "stage1__", "__scratch__", "a_", "", "UPPER", "with space", "dash-", "0",
+            "x{", "{}", "visit{{2023}}", "raw{counter}", "%s", "a.b", "@prev", "@prev"]      # "@prev": a name generated earlier
 
 
 class Sim:
@@ -97,6 +98,16 @@ class Sim:
 
             for kind, ei, prefix in self.sc["threads"][tid]:
                 eng = engines[ei % len(engines)]
+                if prefix == "@prev":
+                    # a name this simulation generated earlier, re-used as a prefix (temp tables named after a leaf)
+                    prev = [h[3] for h in self.history if isinstance(h[3], str)]
+                    prefix = prev[-1] if prev else "leaf"
+                try:
+                    name = self.one_request(kind, ei, prefix, eng, leaves)
+                except Exception as e:  # noqa  (a request that fails is an outcome to judge, not a harness error)
+                    name = ("raised", type(e).__name__)
+                self.history.append((tid, ei % len(engines), prefix, name))
+                continue
                 if kind == "getname":
                     name = eng.get_relation_name(prefix)
                 elif kind == "leaf":
@@ -128,15 +139,30 @@ class Sim:
             else:
                 self.main_sem.release()
 
-    def sql_request(self, kind, prefix):
+    def one_request(self, kind, ei, prefix, eng, leaves):
+        from lsst.daf.relation import iteration
+
+        if kind == "getname":
+            return eng.get_relation_name(prefix)
+        if kind == "leaf":
+            return eng.make_leaf(set(), iteration.RowSequence([]), name_prefix=prefix).name
+        if kind == "leafshared":
+            return eng.make_leaf(set(), self.shared_payload, name_prefix=prefix).name
+        if kind in ("sqlleaf", "sqlmat", "sqlmat_marked"):
+            return self.sql_request(kind, prefix, ei)
+        return leaves[ei % len(leaves)].with_rows_satisfying(_false_pred()).materialized(name_prefix=prefix).name
+
+    def sql_request(self, kind, prefix, ei=0):
         from lsst.daf.relation import Materialization, sql
 
+        sql_engine = self.sql_engines[ei % len(self.sql_engines)]
+        sql_base = self.sql_bases[ei % len(self.sql_engines)]
         if kind == "sqlleaf":
-            rel = self.sql_engine.make_leaf(set(), self.sql_payload, name_prefix=prefix)
+            rel = sql_engine.make_leaf(set(), self.sql_payload, name_prefix=prefix)
             while not hasattr(rel, "name"):
                 rel = rel.target
             return rel.name
-        base = self.sql_base.with_rows_satisfying(_false_pred())
+        base = sql_base.with_rows_satisfying(_false_pred())
         if kind == "sqlmat_marked":
             base = _marker_class()(target=base)
         rel = base.materialized(name_prefix=prefix)
@@ -150,9 +176,9 @@ class Sim:
 
         _marker_class()          # (class creation runs library code: keep it out of the traced threads)
         self.shared_payload = iteration.RowSequence([])
-        self.sql_engine = sql.Engine(name="s0")
+        self.sql_engines = [sql.Engine(name="s0"), sql.Engine(name="s1")]
         self.sql_payload = sql.Payload(sqlalchemy.table("t"))
-        self.sql_base = self.sql_engine.make_leaf(set(), self.sql_payload, name="sqlbase")
+        self.sql_bases = [e.make_leaf(set(), self.sql_payload, name="sqlbase") for e in self.sql_engines]
 
         orig_uuid, orig_time, orig_ns, orig_mono = uuid.uuid4, time.time, time.time_ns, time.monotonic
         urng = self.urng
@@ -197,6 +223,9 @@ class Sim:
         out = []
         seen = {}
         for tid, ei, prefix, name in self.history:
+            if isinstance(name, tuple) and name and name[0] == "raised":
+                out.append({"kind": "name_request_failed", "detail": {"prefix": prefix, "exception": name[1], "thread": tid}})
+                continue
             if not isinstance(name, str) or not name.startswith(prefix):
                 out.append({"kind": "name_prefix", "detail": {"prefix": prefix, "name": name, "thread": tid}})
             if name in seen:
